@@ -7,4 +7,17 @@ let () =
       pr_result (fun pt -> pr_nat pt; pr_opt pr_nat (bd_decide models pt)) (bd_pred_total thr files));
   reg "c07.best_feature" (fun () ->
       let thr = rd_q () in let feats = rd_list (rd_list rd_z) () in let tg = rd_list rd_bool () in
-      pr_opt (fun ((i, c), d) -> pr_nat i; pr_nat c; pr_bool d) (bd_best_feature feats tg thr))
+      pr_opt (fun ((i, c), d) -> pr_nat i; pr_nat c; pr_bool d) (bd_best_feature feats tg thr));
+  (* brew(ensemble=True) as a whole: fitted models in delivery order, collections; -> folds of the returned models, scores, descs *)
+  reg "c07.brew_ens" (fun () ->
+      let c = rd_nat () in let k = rd_nat () in let thr = rd_q () in
+      let fitted = rd_list (fun () ->
+          let fold = rd_nat () in let tr = rd_bool () in let fp = rd_nat () in let ov = rd_bool () in
+          let best = rd_nat () in let d = rd_bool () in let raw = rd_list (rd_list rd_z) () in
+          { bf_fold = fold; bf_trained = tr; bf_feat_pass = fp; bf_override = ov; bf_best = best; bf_desc = d; bf_raw = raw }) () in
+      let files = rd_list (fun () ->
+          let keys = rd_list rd_z () in let tg = rd_list rd_bool () in let feats = rd_list (rd_list rd_z) () in
+          { bc_keys = keys; bc_targets = tg; bc_feats = feats }) () in
+      pr_result (fun (folds, (scores, descs)) ->
+          pr_list pr_nat folds; pr_list (pr_list pr_q) scores; pr_list pr_bool descs)
+        (bw_brew_ens c k thr fitted files))
